@@ -72,7 +72,7 @@ def group(rng, base, ng):
     return grp
 
 
-def hier_case(rng, levels=None, last_all_atom=True):
+def hier_case(rng, levels=None, last_all_atom=True, share_p=0.0):
     """molecule -> atom fragments (level L) -> groups (level L-1) [-> groups of groups]"""
     while True:
         g = gen_mol.rnd_mol(rng, rng.randint(4, 12), aromatic_p=0.2)
@@ -84,6 +84,7 @@ def hier_case(rng, levels=None, last_all_atom=True):
             continue
         levels = levels or rng.choice([1, 1, 2])
         layers = []      # list of (fragment-block string)
+        nshared = [0]
         names = {i: 'F%d' % i for i in range(nf)}
         cur = base
         ok = True
@@ -97,12 +98,27 @@ def hier_case(rng, levels=None, last_all_atom=True):
             top.add_nodes_from(range(ng))
             desc = collections.defaultdict(list)
             lab = 0
-            for a, b, o in cur.edges(data='order'):
+            shared_into = set()
+            ext = cur.copy()          # beads shared between two groups are added as extra copies
+            names = dict(names)
+            grp = dict(grp)
+            for a, b, o in list(cur.edges(data='order')):
                 if grp[a] != grp[b]:
                     lab += 1
                     kind = rng.choice(['$', '><'])
                     L = 'Q%d%d' % (lv, lab)
-                    if kind == '$':
+                    if share_p and rng.random() < share_p and (grp[a], b) not in shared_into:
+                        shared_into.add((grp[a], b))     # one copy of a bead per group
+                        # the group of `a` gets a copy b' of bead b, bonded to a; b' and b carry the '!' pair
+                        bp = max(ext.nodes) + 1
+                        ext.add_node(bp)
+                        ext.add_edge(a, bp, order=o)
+                        names[bp] = names[b]
+                        grp[bp] = grp[a]
+                        desc[bp].append(('!' + L, 1))
+                        desc[b].append(('!' + L, 1))
+                        nshared[0] += 1
+                    elif kind == '$':
                         desc[a].append(('$' + L, o))
                         desc[b].append(('$' + L, o))
                     else:
@@ -122,8 +138,8 @@ def hier_case(rng, levels=None, last_all_atom=True):
             gnames = {j: 'G%d_%d' % (lv, j) for j in range(ng)}
             block = []
             for j in range(ng):
-                members = [f for f in cur if grp[f] == j]
-                sub = cur.subgraph(members).copy()
+                members = [f for f in ext if grp[f] == j]
+                sub = ext.subgraph(members).copy()
                 block.append('#%s=%s' % (gnames[j], render_cg_fragment(rng, sub, names, desc)))
             rng.shuffle(block)
             layers.append('{' + ','.join(block) + '}')
@@ -136,7 +152,7 @@ def hier_case(rng, levels=None, last_all_atom=True):
     s = base_str + '.' + '.'.join(reversed(layers)) + '.{' + frags + '}'
     flat_base, _ = gen_mol.render_base(rng, base, {i: 'F%d' % i for i in range(nf)})
     whole = '{[#M]}.{#M=' + gen_mol.render_frag(rng, g, list(g), {}) + '}'
-    return {'kind': 'hier', 's': s, 'flat': flat_base + '.{' + frags + '}', 'whole': whole, 'levels': levels + 1,
+    return {'kind': 'hier', 'nshared_upper': nshared[0], 's': s, 'flat': flat_base + '.{' + frags + '}', 'whole': whole, 'levels': levels + 1,
             'nfrag': nf, 'natoms': len(g),
             'mol': {'n': [[k, d['element'], d['charge'], d['h'], d['aromatic']] for k, d in g.nodes(data=True)],
                     'e': [[a, b, o] for a, b, o in g.edges(data='order')]}}
